@@ -8,7 +8,7 @@ RULE = ('connector settings from an 18-spec alphabet (degree lists, ranges, open
         '1-3 nodes (thorough: up to 3x3), 0-2 excluded pairs, parallel limit None/1/2/3, 1-4 existence patterns incl. absent nodes '
         'and degree overrides; per pattern: get_agg_matrix sorted = enum_M (proved = ValidM, duplicate-free), validate_matrix = '
         'validate for every integer matrix of the box 0..max_conn+1 (capped at 600 matrices), count via count_matrices = '
-        'count_M, iter_matrices = same multiset; a bounded-exhaustive family over a 9-spec '
+        'count_M, iter_matrices = same multiset; matrices with a negative entry (row and column sums kept) must be rejected; patterns written with existence flags and one shared override dictionary, or with the dictionary keys in another order, must equal the plainly written ones; degree lists with a value written twice; a bounded-exhaustive family over a 9-spec '
         'alphabet for 1x1, 1x2, 2x1 (quick: slice) and 2x2 (thorough); non-trivial = at least 2 valid matrices in some pattern')
 TRUSTED = ['numpy arrays are converted to nested int lists; existence patterns are keyed by position in the pattern list']
 PARTIAL = ['max_src/tgt_conn_override of NodeExistence (unused by the graph layer) is not modelled']
@@ -33,14 +33,28 @@ def batches(tier, seed):
         ex = rng.sample(ex, 4000)
     yield 'bounded-exhaustive', ex
     n = 500 if tier == 'quick' else 6000
-    yield 'random', [matcase.gen(rng, max_src=2 if tier == 'quick' or rng.random() < 0.6 else 3, max_tgt=3) for _ in range(n)]
+    rnd = [matcase.gen(rng, max_src=2 if tier == 'quick' or rng.random() < 0.6 else 3, max_tgt=3) for _ in range(n)]
+    for i, c in enumerate(rnd):
+        # the same patterns written in the other public ways; a degree value written twice in a list
+        c['_build'] = [None, 'exists-shared', 'reversed-keys', None][i % 4]
+        if i % 5 == 0:
+            for spec in c['src'] + c['tgt']:
+                if spec[0] == 'list' and rng.random() < 0.5:
+                    spec[1] = sorted(spec[1] + [rng.choice(spec[1])])
+    yield 'random', rnd
 
 
 def run_case(case):
     import numpy as np
     from adsg_core.optimization.assign_enc.matrix import AggregateAssignmentMatrixGenerator
     c = {k: v for k, v in case.items() if not k.startswith('_')}
-    settings, pats = matcase.build(c)
+    settings, pats = matcase.build(dict(c, _build=case.get('_build')))
+    # however a pattern was written, it is the pattern the plain construction gives
+    _, plain = matcase.build(c)
+    for k, (p1, p2) in enumerate(zip(pats, plain)):
+        if not (p1 == p2 and hash(p1) == hash(p2)):
+            return {'fail': {'clause': 'equal-patterns-compare-unequal', 'detail': 'pattern %d written as %s: %r vs %r' % (k, case.get('_build'), p1, p2)},
+                    'tags': ['build:%s' % case.get('_build')]}
     gen = AggregateAssignmentMatrixGenerator(settings)
     gen.reset_agg_matrix_cache()
     ssx = matcase.sx_settings(c)
@@ -70,6 +84,14 @@ def run_case(case):
             for _ in range(300):
                 box.append([[rng.randint(0, hi) for _ in c['tgt']] for _ in c['src']])
         val = [bool(gen.validate_matrix(np.array(m, dtype=int).reshape(len(c['src']), len(c['tgt'])), existence=ex)) for m in box]
+        # a number of connections is never negative: shift one connection of a valid matrix from one cell to a cell with none
+        # in the same row/column pattern (+1, -1, -1, +1 on a 2x2 minor keeps all row and column sums)
+        if len(c['src']) >= 2 and len(c['tgt']) >= 2:
+            for m in mats[:20]:
+                mm = [list(r) for r in m]
+                mm[0][0] += 1; mm[0][1] -= 1; mm[1][0] -= 1; mm[1][1] += 1
+                if min(min(r) for r in mm) < 0 and bool(gen.validate_matrix(np.array(mm, dtype=int), existence=ex)):
+                    return {'fail': {'clause': 'validate-false-accept', 'detail': 'pattern %d: matrix %s with a negative entry is accepted' % (k, mm)}, 'tags': tags}
         queries += [sx(['enum_M', ssx, psx]), sx(['validate_M', ssx, psx, box]), sx(['max_conn_mat', ssx, psx])]
         impl.append({'agg': [list(map(list, m)) for m in mats], 'iter': [list(map(list, m)) for m in it], 'val': val,
                      'count': counts[k], 'maxconn': mc, 'box': box})
